@@ -386,6 +386,11 @@ def construct(ctx, rng, xr, ws):
     from wavespectra.construct import frequency, direction, construct_partition
     f = np.linspace(0.04, 0.4, int(rng.integers(5, 20)))
     th = np.arange(0, 360, float(rng.choice([10.0, 15.0, 30.0])))
+    if rng.random() < 0.35:
+        # coordinate arrays as files hold them: directions descending or starting anywhere on the circle, frequencies descending
+        th = th[::-1].copy() if rng.random() < 0.5 else np.roll(th, int(rng.integers(1, len(th))))
+        if rng.random() < 0.3:
+            f = f[::-1].copy()
     fda = xr.DataArray(f, dims=["freq"], coords={"freq": f})
     tda = xr.DataArray(th, dims=["dir"], coords={"dir": th})
     n = int(rng.integers(1, 4))
